@@ -169,13 +169,16 @@ def u_read_message(c):
     c.only_raises(out, (IO.StreamClosedError, IO.UnsatisfiableReadError, H1._QuietException, AppError))
     if g["headers"] == 1 and not g["detached"] and not nested:
         c.oblige("exactly-one-of-finish-and-close", g["finish"] + g["close"] == 1)
+    if nested:
+        # an interim (1xx) response: the final response is read and reported by the recursive call, the outer activation adds nothing (F-53: it used to read a "body" and finish again)
+        c.oblige("after-an-interim-response-the-outer-activation-neither-finishes-nor-closes-the-delegate-and-returns-the-inner-result", g["finish"] + g["close"] == 0 and (not out.returned or out.value is True))
     c.oblige("never-both-never-twice", g["finish"] <= 1 and g["close"] <= 1 and g["finish"] + g["close"] <= 1 and g["headers"] <= 1)
     c.oblige("no-notification-without-headers", g["headers"] == 1 or g["finish"] + g["close"] == 0)
     c.oblige("finish-only-after-the-whole-body", g["finish"] == 0 or g["body_done"] or status in (304,) or (is_client and conn._request_start_line.method == "HEAD") or bool(nested))
     c.oblige("finish-never-after-withheld-body-data", g["finish"] == 0 or not g.get("withheld", False))
     c.oblige("callbacks-cleared-on-every-exit", ("clear_callbacks",) in log)
     if out.returned:
-        c.oblige("true-only-after-complete-message", (out.value is not True) or (g["headers"] == 1 and (g["body_done"] or status == 304 or nested)))
+        c.oblige("true-only-after-complete-message", (out.value is not True) or (g["headers"] == 1 and (g["body_done"] or status == 304 or bool(nested))))
     if g["written"]:
         c.oblige("only-400-is-ever-written-by-the-reader", g["written"] == [b"HTTP/1.1 400 Bad Request\r\n\r\n"] and not is_client and
                  ((g["closed"] and out.returned and out.value is False) or (out.raised and isinstance(out.exc, IO.StreamClosedError))))
